@@ -146,6 +146,31 @@ def rule_asserteq(text, arg):
     return _splice(text, edits), len(edits), "assert_eq!(a, b) -> assert!((a) == (b))"
 
 
+def rule_assertmsg(text, arg):
+    """R19: assert!(cond, "format", args..) -> assert!(cond): the panic message is dropped, the condition (the obligation) stays"""
+    toks = _tok(text)
+    edits = []
+    for j in range(len(toks) - 2):
+        if toks[j].text == "assert" and toks[j + 1].text == "!" and toks[j + 2].text == "(":
+            close = rs.match_close(toks, j + 2)
+            depth = 0
+            for k in range(j + 3, close):
+                t = toks[k]
+                if t.text in "([{":
+                    depth += 1
+                elif t.text in ")]}":
+                    depth -= 1
+                elif t.text == "," and depth == 0:
+                    if k + 1 < close:
+                        edits.append((toks[k].start, toks[close].start, ""))
+                    else:
+                        edits.append((toks[k].start, toks[k].end, ""))
+                    break
+    if not edits:
+        raise TransplantError("R19: no assert! with a message")
+    return _splice(text, edits), len(edits), "assert!(cond, message..) -> assert!(cond)"
+
+
 def rule_forcontinue(text, arg):
     """R4: `for x in LO..=HI { B }` (B contains `continue`) ->
        `let mut __it = LO; let __hi = HI; let mut __fin = false;
@@ -427,6 +452,7 @@ def rule_nullaryclosure(text, arg):
 
 RULES = {
     "R18": rule_nullaryclosure,
+    "R19": rule_assertmsg,
     "R17": rule_patclosure,
     "R16": rule_nameiter,
     "R15": rule_bracearm,
